@@ -363,6 +363,11 @@ def _menus():
     from jumanji.environments.packing.knapsack.generator import RandomGenerator as KGen
     from jumanji.environments.packing.knapsack.reward import DenseReward as KDense
     from jumanji.environments.packing.knapsack.reward import SparseReward as KSparse
+    for n, b, rw in ((5, 4.0, "dense"), (5, 4.0, "sparse")):     # roomy bag: every item fits, budget to spare at the end
+        add("Knapsack", f"n{n}b{int(b)}{rw[0]}",
+            lambda n=n, b=b, rw=rw, **k: E.Knapsack(
+                generator=KGen(num_items=n, total_budget=b),
+                reward_fn=KDense() if rw == "dense" else KSparse()), items=n, budget=b, reward=rw)
     for n, b, rw in ((3, 0.5, "dense"), (10, 2.0, "sparse"), (50, 12.5, "dense"), (10, 2.0, "dense"),
                      (50, 12.5, "sparse"), (130, 20.0, "dense")):
         add("Knapsack", f"n{n}{rw[0]}",
@@ -643,7 +648,7 @@ QUICK = {
     "Game2048": ["b3", "b4"], "GraphColoring": ["n6p8", "n20p8", "n40p3", "n130p1"], "Minesweeper": ["r3c5m3", "default", "r2c2m1", "r12c12m20", "r4c4m15"],
     "RubiksCube": ["n2s1t3", "n3s7t7"], "SlidingTilePuzzle": ["g3m50t7d", "g2m1t3s", "g12m300t60d"],
     "Sudoku": ["veryeasy", "dummy", "veryeasy_u8", "near"], "BinPack": ["r10e20s2", "r5e10s1o6", "r10e30o8huge", "csvtiny_sparse"], "FlatPack": ["r2c3b", "r3c2c"],
-    "JobShop": ["j3m2o3d2", "j5m4o4d4", "j40m4o3d4", "j130m3o2d3"], "Knapsack": ["n10s", "n50d", "q8d", "t12d", "n130d"], "Tetris": ["r6c5t400", "r10c10t400", "r6c5t7"],
+    "JobShop": ["j3m2o3d2", "j5m4o4d4", "j40m4o3d4", "j130m3o2d3"], "Knapsack": ["n10s", "n50d", "q8d", "t12d", "n5b4s", "n130d"], "Tetris": ["r6c5t400", "r10c10t400", "r6c5t7"],
     "Cleaner": ["r3c7a1t7", "r5c11a2tNone", "r3c3a2tNone", "r4c6a2t12p0", "r13c13a3tNone"], "Connector": ["g5a2t7rw", "g6a3t50rw", "g5a2t12rwc20s0", "g12a48t50rw", "g6a5t30uni"],
     "CVRP": ["n5s", "n20d", "zb6d", "n130d"], "LevelBasedForaging": ["g6a2f2v2l2cVNp0t100", "g8a3f3v3l3nGRp5t100", "g7a2f3v7l2nGRp0t40", "g5a3f1v5l2nVNp0t40", "g8a3f3v5l2nVNp0t40", "g6a4f1v6l2nVNp0t40"],
     "Maze": ["r4c7tNone", "r5c5t7", "r13c13tNone"], "MMST": ["n12e18a2k3t7", "n12e18a3k2t30"], "MultiCVRP": ["c6v2d", "c6v3s"],
